@@ -9,12 +9,12 @@ THEOREMS = ["C20_conf_roundtrip", "C20_conf_terminates", "C20_conf_no_oob", "C20
 LEVEL = "proof"
 STREAM = "conf.tree"
 CHUNK = 500
-CASE_SECONDS = 2
+CASE_SECONDS = 1
 RULE = ("decorated trees of depth 0..5 (0..5 nodes per list; keys over printable ASCII incl. every delimiter, control characters, "
         "VT/FF and bytes >= 0x80; every key spelled bare where the syntax allows or quoted with a random mix of literal / escaped "
         "characters, \\n and backslash-CR continuations; forms `k`, `k,`, `,`, `k: c`, `k { .. }`; random filler = blanks, VT/FF runs, "
-        "`;` comments, at every place filler may stand) rendered to text; all strings of length <= 4 (quick) / <= 5 (thorough) over "
-        "the alphabet a \" \\ : , ; { } space LF; random and mutated texts. non-trivial = the text contains at least one delimiter; "
+        "`;` comments, at every place filler may stand) rendered to text; all strings of length <= 4 (quick) / <= 6 (thorough) over "
+        "the alphabet a \" \\ : , ; { } space LF and of length <= 3 / <= 4 over that alphabet plus n CR TAB VT; random and mutated texts. non-trivial = the text contains at least one delimiter; "
         "distinct by request text")
 EXPLANATION = ("theorems over Model/Conf + Spec/ConfRender (all decorated trees, all strings); the model is tied to conf.cpp by the "
                "regenerated strpbrk set and by running model and Conf::from_string on every generated text and diffing the trees / "
@@ -391,12 +391,18 @@ def cases(rng, tier):
         yield Case("conf " + hx(t), ["corpus"] + text_tags(t), "corpus")
     # bounded-exhaustive: all strings up to length L over the delimiter alphabet
     alpha = [97, 34, 92, 58, 44, 59, 123, 125, 32, 10]
-    L = 4 if tier == "quick" else 5
+    L = 4 if tier == "quick" else 6
     for n in range(1, L + 1):
         for s in itertools.product(alpha, repeat=n):
             yield Case("conf " + hx(s), text_tags(s) and ["exh-len-%d" % n] + text_tags(s), "exhaustive")
+    # ... and over the white-space / escape alphabet (CR, TAB, VT, n join the delimiters)
+    alpha2 = [97, 110, 34, 92, 58, 44, 59, 123, 125, 32, 13, 9, 11]
+    for n in range(1, (3 if tier == "quick" else 4) + 1):
+        for s in itertools.product(alpha2, repeat=n):
+            if any(c in (110, 13, 9, 11) for c in s):
+                yield Case("conf " + hx(s), ["exh2-len-%d" % n] + text_tags(s), "exhaustive-ws")
     # decorated trees
-    ntree = 2500 if tier == "quick" else 30000
+    ntree = 6000 if tier == "quick" else 60000
     for i in range(ntree):
         depth = [0, 1, 2, 3, 4, 5][i % 6]
         profile = "plain" if i % 5 == 0 else "any"
@@ -419,7 +425,7 @@ def cases(rng, tier):
                     m[min(pos, len(m) - 1)] = c
                 yield Case("conf " + hx(m), ["mutated"] + text_tags(m), "mutated")
     # random texts
-    nrand = 1500 if tier == "quick" else 20000
+    nrand = 4000 if tier == "quick" else 40000
     for i in range(nrand):
         n = rng.choice([1, 2, 5, 8, 13, 21, 40, 80])
         s = [gen_char(rng, "any") for _ in range(n)]
